@@ -28,19 +28,19 @@ PROPS = {
     "C01": {
         "level": "exploration",
         "quick_s": 40, "thorough_s": 900, "thorough_seeds": 4,
-        "rule": "block-structured programs (seq/xor/and/or/loop/conditional-task/sub, swarm subset per run, <=12 tasks, depth<=3) x truth assignment x answer plan (hold-until-quiescent / pick order) x subscriber buffer 0..16 x tape-driven goroutine schedule; distinct = distinct hash of the (goroutine id, site) schedule sequence; non-trivial = at least one context switch and >= 2 task requests",
+        "rule": "block-structured programs (seq/xor/and/or/loop/conditional-task/sub, swarm subset per run, <=12 tasks, depth<=3) x truth assignment x answer plan (hold-until-quiescent / pick order) x subscriber buffer 0..16 x tape-driven goroutine schedule; distinct = distinct hash of the (goroutine id, site) schedule sequence; non-trivial = at least one context switch and >= 2 task requests Further: default flows on activities, sub-processes inside loops, parallel and inclusive branches without any activity, loops left over a condition (continued by default), a join followed by a fork of the same kind drawn as one gateway.",
     },
     "C03": {
         "level": "exploration", "quick_s": 30, "thorough_s": 600, "thorough_seeds": 4,
-        "rule": "fork -> N tasks -> parallel gateway N x M -> M tasks -> join, N,M in 1..4, 1..3 activations through a loop; the answer plan holds requests until the engine is quiescent and then picks any pending one, so every finish order of the upstream tasks is reachable; tape-driven goroutine schedule; distinct = distinct schedule hash, non-trivial = N>1 or M>1 and at least one context switch",
+        "rule": "fork -> N tasks -> parallel gateway N x M -> M tasks -> join, N,M in 1..4, 1..3 activations through a loop; the answer plan holds requests until the engine is quiescent and then picks any pending one, so every finish order of the upstream tasks is reachable; tape-driven goroutine schedule; distinct = distinct schedule hash, non-trivial = N>1 or M>1 and at least one context switch Further: flows without activity into and out of the gateway (tokens that arrive the moment the fork fires).",
     },
     "C04": {
         "level": "exploration", "quick_s": 30, "thorough_s": 600, "thorough_seeds": 4,
-        "rule": "exclusive gateway with 1..4 conditional flows, default absent or at any list position, truth assignment drawn per condition, expr / XPath / data-object conditions, 1..3 tokens arriving concurrently through a parallel fork; distinct = schedule hash; non-trivial = at least one context switch Further strata: several tokens reaching the gateway over one incoming flow (behind a merge); informal condition expressions; a token that passes two gateways with a task that stores nothing in between while a sibling task changes the variable the second gateway reads.",
+        "rule": "exclusive gateway with 1..4 conditional flows, default absent or at any list position, truth assignment drawn per condition, expr / XPath / data-object conditions, 1..3 tokens arriving concurrently through a parallel fork; distinct = schedule hash; non-trivial = at least one context switch Further strata: several tokens reaching the gateway over one incoming flow (behind a merge); informal condition expressions; a token that passes two gateways with a task that stores nothing in between while a sibling task changes the variable the second gateway reads. Further stratum: one token passes the same gateway several times through a loop, taking the default first and a condition later or the other way round.",
     },
     "C05": {
         "level": "exploration", "quick_s": 30, "thorough_s": 600, "thorough_seeds": 4,
-        "rule": "inclusive fork with 1..4 conditional branches + optional default, branches of one or two tasks, some ending in their own end event, joined by an inclusive join; truth assignments drawn; answer plan reaches all finish orders; distinct = schedule hash; non-trivial = >= 2 branch tasks requested and a context switch",
+        "rule": "inclusive fork with 1..4 conditional branches + optional default, branches of one or two tasks, some ending in their own end event, joined by an inclusive join; truth assignments drawn; answer plan reaches all finish orders; distinct = schedule hash; non-trivial = >= 2 branch tasks requested and a context switch Further strata: sequence flows straight from the fork to the join; an inclusive gateway that joins and forks at once between the fork and the join.",
     },
     "C12": {
         "level": "exploration", "quick_s": 40, "thorough_s": 900, "thorough_seeds": 4,
@@ -66,7 +66,7 @@ PROPS = {
     },
     "C11": {
         "level": "exploration", "quick_s": 35, "thorough_s": 900, "thorough_seeds": 4,
-        "rule": "1..3 intermediate catch events (signal / message) in sequence, in parallel, or behind a task, optionally with a catch + throw event on a branch that is never taken; event histories of 0..8 events (matching, non-matching, repeated) + the awaited ones, delivered one at a time at quiescent moments interleaved with task answers (exact listener model) or from their own goroutines at arbitrary trace counts (safety bounds only); every ConsumeEvent call is stamped; distinct = schedule hash; non-trivial = at least one event delivered and a context switch Further strata: racing deliveries that land the moment their trigger trace is observed (in the middle of engine activity) instead of at the next moment of rest; message events and definitions with operation references.",
+        "rule": "1..3 intermediate catch events (signal / message) in sequence, in parallel, or behind a task, optionally with a catch + throw event on a branch that is never taken; event histories of 0..8 events (matching, non-matching, repeated) + the awaited ones, delivered one at a time at quiescent moments interleaved with task answers (exact listener model) or from their own goroutines at arbitrary trace counts (safety bounds only); every ConsumeEvent call is stamped; distinct = schedule hash; non-trivial = at least one event delivered and a context switch Further strata: racing deliveries that land the moment their trigger trace is observed (in the middle of engine activity) instead of at the next moment of rest; message events and definitions with operation references. Further: start events that carry an event definition of their own (never delivered) in front of the catch events.",
     },
     "C14": {
         "level": "exploration", "quick_s": 45, "thorough_s": 600, "thorough_seeds": 4,
@@ -91,7 +91,7 @@ PROPS = {
     },
     "C20": {
         "level": "exploration", "quick_s": 40, "thorough_s": 900, "thorough_seeds": 4, "race": True, "race_clause": "C20/data-race",
-        "rule": "(b) 1..8 generators alive at once (real muyo/sno generators through id.GetSno(), and fallback generators created at the same instant of the frozen simulated clock), 1..16 goroutines drawing 1..60 ids each from every generator under tape-driven interleaving, snapshot after a drawn number of draws followed by RestoreIdGenerator and further draws (crash/restart with durable state), occasionally 70000 draws inside one frozen time unit (sequence overflow); (a) engine runs of forking programs with the engine's real default generator, collecting FlowId/InstanceId from the traces; race build: the Go race detector sees the draws with the scheduler hand-off hidden; oracle: one set, any repeat is a violation; distinct = schedule hash; non-trivial = >1 drawing goroutine or generator (c) 2..5 instances following each other in one engine, each with a context of its own that is cancelled before the next is created, in the same instant or 1..6 simulated ms later, ids collected from Process.Id and NewFlowTrace.",
+        "rule": "(b) 1..8 generators alive at once (real muyo/sno generators through id.GetSno(), and fallback generators created at the same instant of the frozen simulated clock), 1..16 goroutines drawing 1..60 ids each from every generator under tape-driven interleaving, snapshot after a drawn number of draws followed by RestoreIdGenerator and further draws (crash/restart with durable state), occasionally 70000 draws inside one frozen time unit (sequence overflow); (a) engine runs of forking programs with the engine's real default generator, collecting FlowId/InstanceId from the traces; race build: the Go race detector sees the draws with the scheduler hand-off hidden; oracle: one set, any repeat is a violation; distinct = schedule hash; non-trivial = >1 drawing goroutine or generator (c) 2..5 instances following each other in one engine, each with a context of its own that is cancelled before the next is created, in the same instant or 1..6 simulated ms later, ids collected from Process.Id and NewFlowTrace. Further stratum: several generators created one after the other, one of them drawing thousands of ids inside one time unit.",
         "oracle": "pairwise distinctness over the whole run + race detector",
     },
     "C15": {
